@@ -52,6 +52,17 @@ def gen_model(rng, small=False):
             else:
                 v["attrs"]["start"] = num(round(rng.uniform(-3, 3), 1)) if rng.random() < 0.5 else num(rng.randint(0, 5))
                 tags.add("attr:literal")
+    # an array parameter, used in an equation and (when the model has a delay) possibly in nothing else
+    if rng.random() < 0.4:
+        from .genflat import idx
+        g.decl("pv", prefixes=["parameter"], dims=[2], value=("arr", [num(1.5), num(2.5)]))
+        g.decl("xpv")
+        m["eqs"].append(("eq", var("xpv"), ("bin", "*", idx("pv", 1), var(g.scalars[0]))))
+        if rng.random() < 0.5:
+            g.decl("ypv")
+            m["eqs"].append(("eq", var("ypv"), ("call", "delay", [var(g.scalars[0]), ("bin", "+", idx("pv", 2), var(p))])))
+            tags.add("delay-duration-of-array-parameter-element")
+        tags.add("array-parameter")
     # a scalar declared after the arrays, and an array itself, with parameter-dependent attributes
     if rng.random() < 0.5 and not product_only:
         g.decl("xlate", attrs={"max": ("bin", "+", ("bin", "*", num(3), var(p)), num(1)), "min": ("neg", var(p))})
